@@ -1560,7 +1560,8 @@ MANIFEST_ENTRY = {
              'lstsq_exists_unique (independent modes: the Gram matrix is invertible, exactly one minimiser for ANY data); '
              'the executable oracle lstsqNormal is NOT proved to solve them - instead every reply of the driver is re-checked '
              'exactly (rational arithmetic) against the normal equations at run time, and the harness refuses a reply without that flag '
-             '(by normal_equations_recover a flagged reply is the synthesising vector). '
+             '(flagged_reply_is_synthesis, a theorem about the executed list program normalResidual: a flagged reply is the synthesising '
+             'vector whenever the kept modes are independent). '
              'TRANSLATED from the current source each run and proved equal to the model (gen_* theorems): recurrence_abc (both branches '
              'and the branch test), the sweep step / which coefficient order feeds a,b vs c / read-write indices / loop bounds / seeds / '
              'one-term guards of jacobi_sum_clenshaw, change_basis_Qbfs_to_Pn, clenshaw_qbfs, change_of_basis_Q2d_to_Pnm, clenshaw_q2d; '
